@@ -26,6 +26,9 @@ var c10DstClasses = []string{"nil", "empty", "full", "room", "exact", "one-short
 func c10Dst(t *rapid.T, label string, cls string, need int, in []byte) (dst, input []byte, prefix []byte) {
 	r := gen.Rand(t, label+".pfx")
 	l := gen.Int(t, label+".l", 1, 40)
+	if gen.Int(t, label+".long", 0, 5) == 0 {
+		l = gen.Uniform(t, label+".ll", 41, 300)
+	}
 	input = in
 	switch cls {
 	case "nil":
